@@ -23,6 +23,7 @@
 #ifdef RP_REWIND_UNIT
 #define RP_STUB_MEMCPY
 #define RP_STUB_MEMSET
+#define RP_STUB_CLEAR
 #endif
 #define RP_GENRAND
 #define RP_CH32XOR
